@@ -26,6 +26,9 @@ pub struct Resolver<'a> {
 
     /// Number of user functions whose bodies are being resolved, one inside the other.
     function_depth: usize,
+
+    /// Number of `import` declarations that are being followed, one leading to the next.
+    import_depth: usize,
 }
 
 #[derive(Default, Clone)]
@@ -40,6 +43,7 @@ impl Resolver<'_> {
             in_func_call_name: false,
             id: IdGenerator::new(),
             function_depth: 0,
+            import_depth: 0,
         }
     }
 }
